@@ -1,5 +1,7 @@
 package trzsz
 
+// C17 — only the authenticated tunnel connection is ever used, and only one.
+
 import (
 	"errors"
 	"io"
@@ -7,37 +9,39 @@ import (
 	"time"
 )
 
-func verifNondetByte() byte
-func verifNondetBool() bool
-func verifNondetRange(lo, hi int) int
-func verifAssume(bool)
-func verifAssert(bool, string)
-func verifReach(string)
-func verifQuiesce()
-func verifBlockForever()
-
 type zzAddr struct{}
 
 func (zzAddr) Network() string { return "tcp" }
 func (zzAddr) String() string  { return "stub" }
 
+// zzConn: first Read returns `first`, second Read returns `payload` (if any), then the connection stays silent.
 type zzConn struct {
-	first  []byte
-	reads  int
-	closed bool
-	wrote  int
+	first   []byte
+	payload []byte
+	reads   int
+	closed  bool
+	wrote   []byte
+	werr    bool
 }
 
 func (c *zzConn) Read(p []byte) (int, error) {
-	if c.reads == 0 {
-		c.reads++
+	c.reads++
+	if c.reads == 1 {
 		return copy(p, c.first), nil
 	}
-	c.reads++
+	if c.reads == 2 && len(c.payload) > 0 {
+		return copy(p, c.payload), nil
+	}
 	verifBlockForever()
 	return 0, io.EOF
 }
-func (c *zzConn) Write(p []byte) (int, error)        { c.wrote += len(p); return len(p), nil }
+func (c *zzConn) Write(p []byte) (int, error) {
+	if c.werr {
+		return 0, errors.New("write error")
+	}
+	c.wrote = append(c.wrote, p...)
+	return len(p), nil
+}
 func (c *zzConn) Close() error                       { c.closed = true; return nil }
 func (c *zzConn) LocalAddr() net.Addr                { return zzAddr{} }
 func (c *zzConn) RemoteAddr() net.Addr               { return zzAddr{} }
@@ -66,52 +70,168 @@ func (l *zzListener) Accept() (net.Conn, error) {
 func (l *zzListener) Close() error   { l.closed = true; return nil }
 func (l *zzListener) Addr() net.Addr { return zzAddr{} }
 
-type zzNop17 struct{}
+type zzSink17 struct{ data []byte }
 
-func (zzNop17) Write(p []byte) (int, error) { return len(p), nil }
+func (s *zzSink17) Write(p []byte) (int, error) {
+	s.data = append(s.data, p...)
+	return len(p), nil
+}
 
-func zzH_C17_accept() {
-	hello, _ := getHelloConstant("1234567890120", 5555)
-	t := newTransfer(zzNop17{}, nil, false, nil)
-	// attacker: same length as the greeting, arbitrary content (may or may not equal it);
-	// or a shorter prefix of the right greeting (greeting split across writes)
-	var a []byte
-	if verifNondetBool() {
-		a = make([]byte, len(hello))
+const zzUID17 = "1234567890120"
+const zzPort17 = 5555
+
+// an attacker's greeting: same length as the real one with arbitrary bytes (may even equal it), a proper prefix
+// (greeting split across writes / right prefix, wrong id), the greeting plus one byte, or nothing at all
+func zzAttackerFirst(hello string) []byte {
+	switch verifNondetRange(0, 3) {
+	case 0:
+		a := make([]byte, len(hello))
 		for i := range a {
 			a[i] = verifNondetByte()
 		}
-	} else {
-		a = []byte(hello[:verifNondetRange(0, len(hello)-1)])
+		return a
+	case 1:
+		return []byte(hello[:verifNondetRange(0, len(hello)-1)])
+	case 2:
+		return append([]byte(hello), verifNondetByte())
 	}
-	ca := &zzConn{first: a}
-	cb := &zzConn{first: []byte(hello)}
-	var l *zzListener
+	b := []byte(hello)
+	i := verifNondetRange(0, len(hello)-1)
+	c := verifNondetByte()
+	verifAssume(c != b[i])
+	b[i] = c
+	return b
+}
+
+func zzH_C17_accept() {
+	hello, reply := getHelloConstant(zzUID17, zzPort17)
+	t := newTransfer(&zzSink17{}, nil, false, nil)
+	ca := &zzConn{first: zzAttackerFirst(hello), payload: []byte{'X'}}
+	cb := &zzConn{first: []byte(hello), payload: []byte{'G'}}
+	conns := []*zzConn{ca, cb}
 	if verifNondetBool() {
-		l = &zzListener{conns: []*zzConn{ca, cb}}
-	} else {
-		l = &zzListener{conns: []*zzConn{cb, ca}}
+		conns = []*zzConn{cb, ca}
 	}
-	t.acceptOnTunnel(l, "1234567890120", 5555)
+	if verifBound("CONNS") >= 3 {
+		cc := &zzConn{first: []byte(hello), payload: []byte{'H'}} // a second correctly greeted connection
+		k := verifNondetRange(0, 2)
+		conns = append(conns[:k], append([]*zzConn{cc}, conns[k:]...)...)
+	}
+	l := &zzListener{conns: conns}
+	t.acceptOnTunnel(l, zzUID17, zzPort17)
 	verifQuiesce()
-	aIsGenuine := string(a) == hello
+	aIsGenuine := string(ca.first) == hello
 	pumped := 0
-	if ca.reads > 1 {
-		pumped++
-	}
-	if cb.reads > 1 {
-		pumped++
+	for _, c := range conns {
+		if c.reads > 1 {
+			pumped++
+		}
 	}
 	verifAssert(pumped <= 1, "more than one connection adopted")
 	if !aIsGenuine {
 		verifAssert(ca.reads <= 1, "unauthenticated connection feeds the transfer")
-		verifAssert(ca.wrote == 0, "unauthenticated connection got an answer")
+		verifAssert(len(ca.wrote) == 0, "unauthenticated connection got an answer")
 		verifAssert(ca.closed || ca.reads == 0, "unauthenticated connection left open")
 		verifReach("attacker-rejected")
 	}
+	// whatever reached the transfer's input came from the adopted connection only
 	adopted := t.tunnelConn.Load()
-	if adopted != nil {
-		verifAssert(pumped == 1, "adopted but not pumped")
+	var got []byte
+	for {
+		b := t.buffer.popBuffer()
+		if b == nil {
+			break
+		}
+		got = append(got, b...)
+	}
+	if adopted == nil {
+		verifAssert(len(got) == 0, "bytes reached the transfer without an adopted connection")
+	} else {
+		ac := (*adopted).(*zzConn)
+		verifAssert(string(ac.first) == hello, "adopted connection did not present the greeting")
+		verifAssert(string(ac.wrote) == reply, "adopted connection was not answered with the server greeting")
+		verifAssert(len(got) <= 1, "bytes from more than one connection reached the transfer")
+		if len(got) == 1 {
+			verifAssert(got[0] == ac.payload[0], "bytes from a connection other than the adopted one reached the transfer")
+		}
+		verifAssert(pumped == 1, "adopted but not read")
 		verifReach("adopted")
+	}
+}
+
+// the client side: connector outcomes nil / wrong reply / right reply / write error, and the grace timer
+func zzH_C17_connect() {
+	hello, reply := getHelloConstant(zzUID17, zzPort17)
+	sink := &zzSink17{}
+	t := newTransfer(sink, nil, false, nil)
+	outcome := verifNondetRange(0, 3)
+	var conn *zzConn
+	switch outcome {
+	case 1:
+		conn = &zzConn{first: []byte(reply), payload: []byte{'G'}}
+	case 2:
+		r := make([]byte, len(reply))
+		for i := range r {
+			r[i] = verifNondetByte()
+		}
+		conn = &zzConn{first: r, payload: []byte{'X'}}
+	case 3:
+		conn = &zzConn{first: []byte(reply), werr: true}
+	}
+	late := verifNondetBool() // the connector returns only after the grace period
+	gate := make(chan bool, 1)
+	t.connectToTunnel(func(port int) net.Conn {
+		verifAssert(port == zzPort17, "connector called with a different port")
+		if late {
+			<-gate
+		}
+		if conn == nil {
+			return nil
+		}
+		return conn
+	}, zzUID17, zzPort17)
+	verifQuiesce()
+	verifAdvanceTime() // the one-second grace period elapses
+	verifQuiesce()
+	gate <- true
+	verifQuiesce()
+	err := t.sendAction(true, nil, false)
+	verifAssert(err == nil, "sendAction failed")
+	adopted := t.tunnelConn.Load()
+	genuine := conn != nil && !conn.werr && string(conn.first) == reply && !late
+	if adopted != nil {
+		verifAssert(genuine, "a connection that did not answer with the server greeting was adopted")
+		verifAssert(t.tunnelConnected, "adopted but not announced")
+		verifAssert(len(sink.data) == 0, "ACT sent in-band although the tunnel is in use")
+		verifAssert(len(conn.wrote) > len(hello), "ACT not sent through the tunnel")
+		verifReach("tunnel")
+	} else {
+		verifAssert(!t.tunnelConnected, "tunnel announced without a connection")
+		verifAssert(len(sink.data) > 0, "no in-band ACT although there is no tunnel")
+		if conn != nil {
+			verifAssert(conn.closed, "rejected connection left open")
+			verifAssert(conn.reads <= 1, "rejected connection feeds the transfer")
+		}
+		if late {
+			verifReach("late")
+		}
+		verifReach("in-band")
+	}
+}
+
+// once both ends agreed on the tunnel, in-band terminal bytes are ignored; tunnel bytes are not
+func zzH_C17_inband() {
+	t := newTransfer(&zzSink17{}, nil, false, nil)
+	t.tunnelConnected = verifNondetBool()
+	viaTunnel := verifNondetBool()
+	b := verifNondetByte()
+	t.addReceivedData([]byte{b}, viaTunnel)
+	got := t.buffer.popBuffer()
+	if t.tunnelConnected && !viaTunnel {
+		verifAssert(got == nil, "in-band bytes reached the transfer although the tunnel is in use")
+		verifReach("dropped")
+	} else {
+		verifAssert(len(got) == 1 && got[0] == b, "bytes lost")
+		verifReach("kept")
 	}
 }
